@@ -174,6 +174,7 @@ func init() {
 		Gen: func(t *rapid.T, thorough bool) *Case {
 			k := DefaultKnobs()
 			k.WBadProvide, k.WBadDecorate, k.WCycleCloser, k.WDupDecorate = 3, 1, 5, 3
+			k.WShadowCycle = 1
 			k.WDecorate, k.WProvide, k.WInvoke, k.WScope = 5, 9, 8, 4
 			k.WVisualize, k.WString = 1, 1
 			k.PFresh = 65
